@@ -327,7 +327,6 @@ func (versionStream) Execute(c Case) {
 	}
 }
 
-
 var concCount int
 
 // concurrentDiffers evaluates s (expected answer v) on 4 goroutines while 4 others evaluate Specs with other
@@ -385,7 +384,6 @@ func concurrentDiffers(s *specs.Spec, v string) bool {
 	wg.Wait()
 	return differs.Load()
 }
-
 
 // stressDiffers: s and two Specs with other feature sets, each blown up to 20000 devices (same feature set, so the
 // same answer), evaluated by 32 goroutines for 400 ms; true if an evaluation of a copy of s disagrees with v.
